@@ -7,7 +7,16 @@ the solver (steadiers.solver_dispatcher.neqs_levenberg), _resolve_steady_wrt, bl
 fords.steadiers.solve_steady_linear_* wrapped from outside; one Coq case per parameter variant compares, bit for
 bit, wrt/fixed qids, per block the index masks, the initial guess and eval_func(final_guess), and the stored
 levels/changes after write-back; for linear models the write-back and the lstsq contract.
-Falsifier: the property on the public getters with an independent evaluator of the SOURCE equations.
+Steady plans: translator/steadyplan.py -> gen/SteadyPlanGen.v (method -> register table of the exec template, guard of
+fix / unfix, swap order, registers of flat mode, set algebra of _resolve_steady_wrt, descriptor of _steady_linear);
+model/SteadyPlan.v (register machine over call histories, defined in terms of the fragments); proofs/SteadyPlanProofs.v.
+Correspondence: per generated model one random history of public SteadyPlan calls played on a fresh SteadyPlan and on
+the register machine; registers + raised flag after every call, _resolve_steady_wrt qids and the split default compared
+exactly.
+Falsifier: the property on the public getters with an independent evaluator of the SOURCE equations (the `!!` steady
+versions where present, incl. materially different ones and pinned unit roots, also for linear=True models); plans are
+set up by generated call HISTORIES (fix / unfix / swap / lists / undone calls) whose meaning is stated independently
+(effective_plan); fixed quantities must keep assigned level AND change (growth mode: unit root whose drift is endogenized).
 
 Behaviour seen while building (none of it contradicts the property text on an admissible input, nothing reported):
   * the solver's absolute tolerance lets it report success at degenerate points of growth models (levels ~1e-13,
@@ -46,6 +55,8 @@ ALLOWED_AXIOMS = {
 }
 TRUSTED = [
     "translator/steady.py + translator/pyexpr.py (path/cell formulas, constants, stacked linear systems -> gen/SteadyGen.v)",
+    "translator/steadyplan.py (SteadyPlan method table / fix-unfix guards / swap order, _SteadyPlannable registers, set algebra of "
+    "_resolve_steady_wrt, descriptor systemized by _steady_linear -> gen/SteadyPlanGen.v; surrounding statements pinned by text)",
     "the solvers offered by steadiers/solver_dispatcher.py (neqs Levenberg, scipy.optimize.root) and numpy.linalg.lstsq are ORACLES: the harness records their outputs by "
     "wrapping them from outside; theorems say what follows when the residual they report is below the tolerance",
     "numpy log/exp/power are black boxes: their values at the arguments the model needs are recorded per run and looked "
@@ -65,7 +76,8 @@ ASSUMPTIONS = [
 MANIFEST = {
     "technique": "Coq proof over the reals of an executable model of the steady-state plumbing (cell formulas, constants and "
                  "stacked linear systems regenerated from the source on every run); bit-exact PrimFloat correspondence of the "
-                 "same model text driven through Simultaneous.steady with the solver / lstsq recorded as oracles",
+                 "same model text driven through Simultaneous.steady with the solver / lstsq recorded as oracles; steady plans as a "
+                 "register machine (statement shapes regenerated from the source) run against SteadyPlan on generated call histories",
     "level_text": "Theorems (props/C05.v), for all models, sizes, blocks, guesses: (1) the steady array row of a quantity is "
                   "level+change*shift, or level*change^shift for log-variables, at every column; (2) writing the final guess back "
                   "and reading it again returns the guess on the solved cells, every other cell of the variant is unchanged (fixed / "
@@ -75,7 +87,11 @@ MANIFEST = {
                   "monomial = monomial equations on geometric paths; (5) blocks solved one after another in a block-triangular order "
                   "(or one joint block) leave ALL equations holding on the finally stored path -- proved for the model of the whole "
                   "_steady_nonlinear loop incl. plan bookkeeping; (6) an exact solution of the stacked linear system satisfies the "
-                  "transition and measurement equations on Xi+t*dXi at every date.",
+                  "transition and measurement equations on Xi+t*dXi at every date; (7) steady plans as a register machine over "
+                  "EVERY history of public calls: fix(names) fixes level and (growth mode) change, unfix undoes both, a status lasts "
+                  "until the quantity is named again, key sets never change, unknowns = endogenous - exogenized + endogenized with "
+                  "level/change unknowns per block, and a quantity fixed by the plan keeps its assigned level (growth: and change) "
+                  "through the whole _steady_nonlinear loop; (8) the linear steady state is computed from the steady descriptor.",
     "level_note": "partial. Not proved: solver convergence (oracle; conclusions are conditional on its reported residual); 'every "
                   "date' for general nonlinear growth models (refuted for the algorithm: C05_two_dates_do_not_suffice; the general "
                   "statement is C05_every_date_partial = dates t and t+1, other dates are searched by the falsifier); rounding "
